@@ -187,7 +187,8 @@ def run(ctx):
         if r["ok"] and not r["violated"]:
             raise vf.Infra("ConfigFile.tla accepts the broken protocol variant %s (vacuous model)" % nm)
     # --- pilot: measured answers and segment counts
-    pilot = [json.loads(x) for x in vf.hkv(["reload-pilot"]).strip().splitlines()]
+    # reversed pairs (new -> old) are part of the thorough tier
+    pilot = [json.loads(x) for x in vf.hkv(["reload-pilot"] + ([] if ctx.quick else ["-rev"]), timeout=1500).strip().splitlines()]
     if not pilot:
         raise vf.Infra("pilot produced nothing")
     jobs = []
